@@ -41,6 +41,7 @@ type World struct {
 	// call graph caches
 	calleesMemo  map[*Func][]*CallSite
 	sentinelMemo map[*types.Var]bool
+	closureMemo  map[*types.Var]*Func
 }
 
 type Func struct {
@@ -375,7 +376,69 @@ func (w *World) CalleeFunc(cs *CallSite) *Func {
 	if fo, ok := cs.Callee.(*types.Func); ok {
 		return w.byObj[fo.Origin()]
 	}
+	// a local variable bound exactly once to a function literal (`undo := func(...) {...}`; `undo(i, x)`)
+	if v, ok := cs.Callee.(*types.Var); ok && !v.IsField() && v.Pkg() != nil && v.Parent() != v.Pkg().Scope() {
+		return w.closureOfVar(cs.In, v)
+	}
 	return nil
+}
+
+// closureOfVar: the function literal a local variable is bound to, when it is assigned exactly once in the
+// declared function enclosing `in` (nested literals included) and that assignment is a literal.
+func (w *World) closureOfVar(in *Func, v *types.Var) *Func {
+	if w.closureMemo == nil {
+		w.closureMemo = map[*types.Var]*Func{}
+	}
+	if f, ok := w.closureMemo[v]; ok {
+		return f
+	}
+	root := in
+	for root.Parent != nil {
+		root = root.Parent
+	}
+	var lits []*ast.FuncLit
+	n := 0
+	info := root.Pkg.TypesInfo
+	ast.Inspect(root.Body, func(x ast.Node) bool {
+		switch s := x.(type) {
+		case *ast.AssignStmt:
+			for i, l := range s.Lhs {
+				id, ok := ast.Unparen(l).(*ast.Ident)
+				if !ok {
+					continue
+				}
+				o := info.Defs[id]
+				if o == nil {
+					o = info.Uses[id]
+				}
+				if o != types.Object(v) {
+					continue
+				}
+				n++
+				if len(s.Rhs) == len(s.Lhs) {
+					if lit, ok := ast.Unparen(s.Rhs[i]).(*ast.FuncLit); ok {
+						lits = append(lits, lit)
+					}
+				}
+			}
+		case *ast.ValueSpec:
+			for i, nm := range s.Names {
+				if info.Defs[nm] == types.Object(v) && i < len(s.Values) {
+					n++
+					if lit, ok := ast.Unparen(s.Values[i]).(*ast.FuncLit); ok {
+						lits = append(lits, lit)
+					}
+				}
+			}
+		}
+		return true
+	})
+	var out *Func
+	if n == 1 && len(lits) == 1 {
+		out = w.byLit[lits[0]]
+	}
+	w.closureMemo[v] = out
+	return out
 }
 
 // Reaches reports whether f, through statically resolved calls into functions whose bodies are
